@@ -327,12 +327,7 @@ func runEng(seed int64, n int, replay string, e *emitter) {
 			q = eGenQuery(r, cmds)
 			opts = eGenOpts(r, len(cmds), cmds)
 		}
-		if len(opts.Boosts) > 0 && r.Intn(2) == 0 { // boost a word of the query itself (an action or target word, often)
-			if ws := strings.Fields(strings.ToLower(q)); len(ws) > 0 {
-				opts.Boosts[0].Word = ints(ws[r.Intn(len(ws))])
-				opts.Boosts[0].F = []string{"1.1", "1.3", "1.5"}[r.Intn(3)]
-			}
-		}
+		eBoostFromQuery(r, q, &opts)
 		rq := recase(r, q)
 		if (harvested || r.Intn(4) == 0) && len(cmds) < 30 {
 			// make every expansion term of the query (and of its re-cased spelling) observable: one entry per term,
